@@ -9,6 +9,7 @@ LEVEL_TEXT = ("Coq theorem: for every well-formed message whose question section
               "sub-sequence of what was added, TC on all but the last); the crate decoder model agrees with the reference "
               "parser; model tied to the Rust encoder byte-for-byte (packets and compression tables) on every run")
 TECHNIQUE = "machine-checked proof in Coq (compression-table invariant, append stability of the reference reader) + model/implementation correspondence"
+MODEL_GROUP = "codec"
 THEOREM_FILE = "Props/C02.v"
 LEVELS = "K1-encode (DnsOutgoing built from plain records, to_packets bytes + compression tables + crate decoder output compared)"
 RULE = ("messages of questions and PTR/SRV/TXT/A/AAAA records in every section; names from label pools with "
